@@ -1168,6 +1168,21 @@ func (s *ObjectStorage) DeleteOldObjectPackAndIndex(h plumbing.Hash, t time.Time
 	if err := s.dir.DeleteOldObjectPackAndIndex(h, t); err != nil {
 		return err
 	}
+
+	// With a time bound the pack is kept when it is not older than t, and
+	// no error is reported: a pack that is still there stays indexed.
+	if !t.IsZero() {
+		packs, err := s.dir.ObjectPacks()
+		if err != nil {
+			return err
+		}
+		for _, p := range packs {
+			if p == h {
+				return nil
+			}
+		}
+	}
+
 	s.muI.Lock()
 	defer s.muI.Unlock()
 
